@@ -438,7 +438,7 @@ def rule_R11(body, log):
                 continue
             ptxt = body[toks[b0][3]:toks[b1][2]]
             params = split_params(ptxt)
-            if any(p_.strip().startswith('(') for p_ in params):
+            if any(p_.strip().startswith('(') or re.match(r'^_\s*(:|$)', p_.strip()) for p_ in params):
                 hit = (b0, b1, params)
                 break
         if hit is None:
@@ -447,7 +447,10 @@ def rule_R11(body, log):
         lets, newp = [], []
         for k_, p_ in enumerate(params):
             ps = p_.strip()
-            if ps.startswith('('):
+            if re.match(r'^_\s*(:|$)', ps):
+                # wildcard parameter: Verus rejects `_` as a closure parameter; an unused named parameter is the same closure
+                newp.append('__cp%d_%d' % (n_done, k_) + ps[1:])
+            elif ps.startswith('('):
                 # pattern (optionally `: type`)
                 ptoks = tokenize(ps)
                 c_ = match_close(ptoks, 0)
@@ -681,6 +684,7 @@ class Extract:
         self.lift_async = None
         self.lift_stmt = None
         self.lv_types = {}
+        self.lift_block = None
         self.lift_stmt_sig = None
         self.lift_stmt_tail = None
         self.lifted_contract = []
@@ -822,6 +826,9 @@ def parse_template(path):
                 # the lifted closure is the one whose argument position follows this literal (e.g. the match arm it belongs to);
                 # overrides the ordinal of lift-closure when closures are inserted or removed before it
                 cur.lift_anchor = val
+            elif key.startswith('lift-block as '):
+                # R6d: the first `async [move] { .. }` block after the lift-anchor literal becomes an `async fn` of its own
+                cur.lift_block = d[len('lift-block as '):].strip()
             elif key.startswith('lift-async '):
                 m = re.match(r'lift-async (\d+) as (.*)$', d)
                 cur.lift_async = (int(m.group(1)), m.group(2))
@@ -986,6 +993,41 @@ def render_extract(ex, vac=False, strip_proof=False):
         ex = __import__('copy').copy(ex)
         ex.ret = None
         ex.rename = None
+    if ex.lift_block is not None:
+        # R6d: an inline `async [move] { .. }` block of an out-of-reach function (located by the lift-anchor literal: the first such
+        # block after it) is emitted as an `async fn` whose body is the block; the variables it uses become the listed parameters.
+        # A `?` inside an async block leaves the block with that error, hence the lifted fn.
+        sig = ex.lift_block
+        if not sig.startswith('async '):
+            raise Undecided('lift-block: signature must start with `async`')
+        sig = sig[len('async '):]
+        anchor = getattr(ex, 'lift_anchor', None)
+        if not anchor or body.count(anchor) != 1:
+            raise Undecided('lift-block: lift-anchor literal %r occurs %d times' % (anchor, body.count(anchor) if anchor else 0))
+        apos = body.index(anchor)
+        toks = tokenize(body)
+        blk = None
+        for i_, (k_, t_, s0_, _) in enumerate(toks):
+            if s0_ >= apos and k_ == 'id' and t_ == 'async':
+                j_ = nontrivia(toks, i_)
+                if j_ < len(toks) and toks[j_][1] == 'move':
+                    j_ = nontrivia(toks, j_)
+                if j_ < len(toks) and toks[j_][1] == '{':
+                    blk = (j_, match_close(toks, j_))
+                    break
+        if blk is None:
+            raise Undecided('lift-block: no async block after %r' % anchor)
+        inner = body[toks[blk[0]][2]:toks[blk[1]][3]]
+        m_ = re.match(r'\s*([A-Za-z_][A-Za-z0-9_]*)', sig)
+        log.append({'rule': 'R6d', 'lifted_async_block_after': anchor, 'of': name, 'as': ex.lift_block,
+                    'block_sha256': hashlib.sha256(inner.encode()).hexdigest()[:16],
+                    'note': 'the rest of the enclosing function is not part of the verified text'})
+        name = m_.group(1)
+        header = 'async fn ' + (sig.replace(name, name + '__vac', 1) if vac else sig)
+        body = inner
+        ex = __import__('copy').copy(ex)
+        ex.ret = None
+        ex.rename = None
     if ex.lift_stmt is not None:
         # R6c: lift one block statement of an out-of-reach function into a fn of its own: the statement text is taken
         # verbatim from the unique occurrence of the literal up to the brace closing its (last) block; the variables it
@@ -1003,12 +1045,22 @@ def render_extract(ex, vac=False, strip_proof=False):
             if t_[2] == p0:
                 i0 = i_
                 break
-        if i0 is None or toks[i0][1] not in ('for', 'while', 'loop', 'if'):
-            raise Undecided('lift-stmt: literal does not start a for/while/loop/if statement')
+        if i0 is None or toks[i0][1] not in ('for', 'while', 'loop', 'if', 'let'):
+            raise Undecided('lift-stmt: literal does not start a for/while/loop/if/let statement')
         kw = toks[i0][1]
         j_ = i0 + 1
         end = None
-        while j_ < len(toks):
+        while kw == 'let' and j_ < len(toks):
+            # a `let` statement ends at the first `;` outside brackets
+            t_ = toks[j_]
+            if t_[0] == 'p' and t_[1] in OPEN:
+                j_ = match_close(toks, j_) + 1
+                continue
+            if t_[0] == 'p' and t_[1] == ';':
+                end = j_
+                break
+            j_ += 1
+        while kw != 'let' and j_ < len(toks):
             t_ = toks[j_]
             if t_[0] == 'p' and t_[1] in ('(', '['):
                 j_ = match_close(toks, j_) + 1
